@@ -7,7 +7,10 @@ export CARGO_NET_OFFLINE=true
 python3 tools/gen.py
 (cd lean && lake build 2>&1 | tail -3 && lake build Rrtk.Audit $(ls Rrtk/Thm/C*.lean | sed 's#/#.#g; s#\.lean$##') 2>&1 | tail -3)
 (cd harness && RUSTFLAGS="--cfg rrtk_verif" cargo build --offline --quiet 2>&1 | tail -3
- for f in std,devices libm,devices; do
+ for f in std,devices libm,devices libm,chk,devices; do
    RUSTFLAGS="--cfg rrtk_verif" cargo build --offline --quiet --no-default-features --features $f --target-dir target/cfg_$(echo $f | tr , _) 2>&1 | tail -3
+ done
+ for f in std,chk,devices std,chkdbg,devices; do
+   RUSTFLAGS="--cfg rrtk_verif" cargo build --offline --quiet --release --no-default-features --features $f --target-dir target/cfg_release_$(echo $f | tr , _) 2>&1 | tail -3
  done)
 echo setup done
